@@ -308,6 +308,7 @@ type hostileCase struct {
 	txs  []h.TxSpec
 	desc string
 	cls  string
+	plan *h.AspectPlan
 }
 
 func genHostile(c Case, tier string) []hostileCase {
@@ -341,7 +342,7 @@ func genHostile(c Case, tier string) []hostileCase {
 				tx.Input = code
 				tx.Salt = h.U(uint64(r.Intn(3)))
 			}
-			out = append(out, hostileCase{w, h.EnvSpec{Fork: f}, []h.TxSpec{tx}, fmt.Sprintf("raw code fork=%s entry=%s gas=%d code=%x", f, entry, tx.Gas, code), "raw"})
+			out = append(out, hostileCase{w, h.EnvSpec{Fork: f}, []h.TxSpec{tx}, fmt.Sprintf("raw code fork=%s entry=%s gas=%d code=%x", f, entry, tx.Gas, code), "raw", nil})
 		}
 	case "jop":
 		op := byte(c.P[0])
@@ -366,7 +367,7 @@ func genHostile(c Case, tier string) []hostileCase {
 				os = append(os, o.Hex())
 			}
 			out = append(out, hostileCase{w, h.EnvSpec{Fork: f}, []h.TxSpec{{Entry: h.ECall, From: h.Sender, To: h.ContractAddr(0), Gas: 5_000_000}},
-				fmt.Sprintf("journal op %#x (%s) operands(top first)=%v memory shape %d storage %s registered=%v fork=%s", op, why, os, shape, sname, register, f), fmt.Sprintf("op%02x", op)})
+				fmt.Sprintf("journal op %#x (%s) operands(top first)=%v memory shape %d storage %s registered=%v fork=%s", op, why, os, shape, sname, register, f), fmt.Sprintf("op%02x", op), nil})
 		}
 		// one operand at a time over the boundary set and memory-length-relative values
 		rel := []*uint256.Int{h.U(0x400 - 33), h.U(0x400 - 32), h.U(0x400 - 1), h.U(0x400), h.U(0x401), h.U(0x41f), h.U(0x420), h.U(0x421), h.U(511), h.U(512), h.U(543), h.U(544), h.U(545)}
@@ -417,7 +418,22 @@ func genHostile(c Case, tier string) []hostileCase {
 			}
 			codes[depth-1] = c14Last(kind, target, h.Pick(r, []uint64{100000, 100000, 100000, 4999, 256}), f)
 			out = append(out, hostileCase{h.BaseWorld(codes), h.EnvSpec{Fork: f}, []h.TxSpec{{Entry: h.ECall, From: h.Sender, To: h.ContractAddr(0), Input: payload, Gas: 6_000_000}},
-				fmt.Sprintf("%s to 0x%02x from depth %d fork=%s payload=%x", kindName(kind), target[19], depth, f, payload), fmt.Sprintf("call-0x%02x", target[19])})
+				fmt.Sprintf("%s to 0x%02x from depth %d fork=%s payload=%x", kindName(kind), target[19], depth, f, payload), fmt.Sprintf("call-0x%02x", target[19]), nil})
+		}
+	case "jp":
+		// call trees with real Aspects bound and a failure at one join-point firing (every early-return path of the call routine)
+		sc, rr := jpScenario(c.Seed)
+		plan := bindPlan(rr, sc, 60, []uint32{0, 10, 100_000_000}, 20)
+		probe := h.NewForkSession(sc.World, h.EnvSpec{Fork: sc.Fork}, h.ForkOpts{Debug: true, JoinPoints: true, Plan: plan})
+		probe.Invoke(sc.Tx)
+		fir := firingsOf(probe.L)
+		out = append(out, hostileCase{sc.World, h.EnvSpec{Fork: sc.Fork}, []h.TxSpec{sc.Tx}, "Aspect-bound call tree: " + sc.desc(), "jp", plan})
+		for k := 0; k < 6 && len(fir) > 0; k++ {
+			f := fir[r.Intn(len(fir))]
+			p := clonePlan(plan)
+			kind := r.Intn(4)
+			p.FailAt[f.idx] = injectedErr(kind)
+			out = append(out, hostileCase{sc.World, h.EnvSpec{Fork: sc.Fork}, []h.TxSpec{sc.Tx}, fmt.Sprintf("Aspect-bound call tree, %s failure at firing %d (%s): %s", injectedErrNames[kind], f.idx, f.pointcut, sc.desc()), "jpfail", p})
 		}
 	case "mut":
 		// mutated well-formed journal programs
@@ -438,7 +454,7 @@ func genHostile(c Case, tier string) []hostileCase {
 				}
 				sc.World.Get(h.ContractAddr(ci)).Code = code
 			}
-			out = append(out, hostileCase{sc.World, h.EnvSpec{Fork: sc.Fork}, []h.TxSpec{sc.Tx}, "mutated journal program: " + sc.desc(), "mut"})
+			out = append(out, hostileCase{sc.World, h.EnvSpec{Fork: sc.Fork}, []h.TxSpec{sc.Tx}, "mutated journal program: " + sc.desc(), "mut", nil})
 		}
 	}
 	return out
@@ -462,6 +478,12 @@ func hostileCases(seed uint64, tier string, salt uint64) []Case {
 	for i := 0; i < nm; i++ {
 		cs = append(cs, Case{Kind: "mut", Seed: h.Mix(seed, salt+3, uint64(i))})
 	}
+	if salt == 0xC03 {
+		// (C20's work counters would charge an Aspect's own execution to the neighbouring instruction)
+		for i := 0; i < nm/2; i++ {
+			cs = append(cs, Case{Kind: "jp", Seed: h.Mix(seed, salt+4, uint64(i))})
+		}
+	}
 	return cs
 }
 
@@ -470,13 +492,13 @@ func init() {
 		ID:      "C03",
 		Level:   "exploration",
 		Hostile: true,
-		Rule: "hostile inputs run on a fully initialised host in address-space-capped worker processes that journal each case before executing it (a fatal error kills only the worker and is attributed to its case): kind raw = random byte strings as code (biased towards journal opcodes, calls to 0x64-0x66, boundary pushes) x random calldata x all forks Frontier..Cancun x all six entry points; kind jop = for each journal opcode every operand position swept over {0,1,31,32,33,255,2^16,2^31,2^32-1,2^32+1,2^63-1,2^63,2^64-1,2^64,2^128,2^255,2^256-1, memLen-33..memLen+1} plus random combinations, under memory shapes {empty,32,64,96,544 bytes with boundary length words} and storage shapes {empty, short, all-zero, long, invalid encodings, lengths 2^12..2^64-1}; kind pcall = every call kind to 0x64-0x66 from depth 1 and 3 with truncated / overflowing ABI payloads; kind mut = byte-mutated well-formed journal programs. " +
+		Rule: "hostile inputs run on a fully initialised host in address-space-capped worker processes that journal each case before executing it (a fatal error kills only the worker and is attributed to its case): kind raw = random byte strings as code (biased towards journal opcodes, calls to 0x64-0x66, boundary pushes) x random calldata x all forks Frontier..Cancun x all six entry points; kind jop = for each journal opcode every operand position swept over {0,1,31,32,33,255,2^16,2^31,2^32-1,2^32+1,2^63-1,2^63,2^64-1,2^64,2^128,2^255,2^256-1, memLen-33..memLen+1} plus random combinations, under memory shapes {empty,32,64,96,544 bytes with boundary length words} and storage shapes {empty, short, all-zero, long, invalid encodings, lengths 2^12..2^64-1}; kind pcall = every call kind to 0x64-0x66 from depth 1 and 3 with truncated / overflowing ABI payloads; kind mut = byte-mutated well-formed journal programs; kind jp = Aspect-bound call trees (real WASM Aspects incl. trapping and gas-exhausting ones) with a provider failure injected at a join-point firing. " +
 			"Oracles: no Go panic escapes an entry point, no worker dies; afterwards CallTree().Current()==nil, call depth 0, static flag clear, and a follow-up top-level call on the same EVM is announced to the debug tracer as a depth-0 Start; a read-cap sentinel (2^16 state reads in one instruction) turns unbounded loops into attributable findings; distinct_nontrivial = distinct (input class, fork, outcome) event shapes",
 		Assumptions: []string{"host initialised as an embedding chain does (chain config, block context with block number, provider, context callbacks)", "crashes needing one specific 256-bit value outside the boundary sets and random draws are not found"},
 		Cases:       func(seed uint64, tier string) []Case { return hostileCases(seed, tier, 0xC03) },
 		Run: func(c Case, tier string) (res CaseResult) {
 			for _, hc := range genHostile(c, tier) {
-				hr := runHostile(hc.w, hc.env, hc.txs, hc.desc, false, nil)
+				hr := runHostile(hc.w, hc.env, hc.txs, hc.desc, false, hc.plan)
 				checkClosed(&res, hr, hc.cls)
 				res.Evals++
 				last := hr.irs[len(hr.irs)-1]
@@ -613,7 +635,7 @@ func runC20(c Case, tier string) (res CaseResult) {
 		}
 	default:
 		for _, hc := range genHostile(c, tier) {
-			hr := runHostile(hc.w, hc.env, hc.txs, hc.desc, true, nil)
+			hr := runHostile(hc.w, hc.env, hc.txs, hc.desc, true, hc.plan)
 			measure(hr, hc.cls)
 		}
 	}
